@@ -606,6 +606,37 @@ def _inherent(head, last, plain, c):
         if last == "new": return lambda I, a, fr, d: Agg("Flag", [Cell(a[0]), Cell(a[1])])
         if last == "value": return lambda I, a, fr, d: Ref(deref(a[0]).cells[1])
         if last == "name": return lambda I, a, fr, d: deref(a[0]).cells[0].v
+    if head == "Atomic" or head.startswith("Atomic") and head[6:] in ("Bool", "Usize", "Isize", "U8", "U16", "U32", "U64", "I8", "I16", "I32", "I64"):
+        def atom(I, a, fr, d):
+            if last == "new": return Agg(head, [Cell(a[0])])
+            at = deref(a[0])
+            cur = at.cells[0].v
+            if last == "load": return cur
+            if last == "into_inner": return cur
+            if last == "get_mut": return Ref(at.cells[0])
+            if last == "store":
+                at.cells[0].v = a[1]; return unit()
+            if last == "swap":
+                at.cells[0].v = a[1]; return cur
+            if last.startswith("fetch_"):
+                op = last[6:]
+                x = a[1]
+                if isinstance(cur, Int):
+                    nv = {"add": lambda: int_binop("Add", cur, x), "sub": lambda: int_binop("Sub", cur, x), "and": lambda: int_binop("BitAnd", cur, x),
+                          "or": lambda: int_binop("BitOr", cur, x), "xor": lambda: int_binop("BitXor", cur, x),
+                          "max": lambda: (cur if val_cmp(I, cur, x) != "Less" else x), "min": lambda: (cur if val_cmp(I, cur, x) != "Greater" else x)}[op]()
+                else:
+                    nv = {"and": lambda: b_and(cur, x), "or": lambda: b_or(cur, x), "xor": lambda: b_not(b_eq(cur, x)), "nand": lambda: b_not(b_and(cur, x))}[op]()
+                at.cells[0].v = nv
+                return cur
+            if last in ("compare_exchange", "compare_exchange_weak"):
+                same = val_eq(I, cur, a[1])
+                same = same if isinstance(same, bool) else I.E.branch(same, "cas")
+                if same:
+                    at.cells[0].v = a[2]; return ok(I, cur)
+                return err(I, cur)
+            raise Unmodelled(f"{head}::{last}")
+        return atom
     if head == "Mutex":
         return colls.mutex_method(last)
     if head == "String" or plain.startswith("std::string::String::"):
